@@ -32,7 +32,7 @@ TraceInit == pos = 1 /\ gor = NoGor /\ InitWith("line", 1, 0, [h \in Hashes |-> 
 
 TReset(e) ==
   /\ kind' = e.kind /\ nl' = e.nl /\ qsize' = e.qsize
-  /\ slot' = [h \in Hashes |-> IF e.kind = "mline" THEN -1 ELSE 0]
+  /\ slot' = [h \in Hashes |-> IF e.kind = "mline" THEN Unknown ELSE 0]
   /\ started' = FALSE
   /\ up' = [x \in LaneIds |-> FALSE]
   /\ qclosed' = [x \in LaneIds |-> FALSE]
@@ -56,7 +56,7 @@ TReset(e) ==
 (* with that hash really run on                                            *)
 TIdx(e) ==
   /\ e.r >= 0 /\ e.r < nl
-  /\ slot[e.h] \in {-1, e.r}
+  /\ slot[e.h] \in {Unknown, e.r}
   /\ slot' = [slot EXCEPT ![e.h] = e.r]
   /\ UNCHANGED <<kind, nl, qsize, started, up, qclosed, stopst, queue, cs, cw, rj, info, lane, ctxd,
                  late, rv, acc, sto, nst, last, gor>>
